@@ -117,6 +117,10 @@ class ControllerH(Harness):
                 viol = self._scenario(T, fs, self._params(thr), vs, root)
         finally:
             shutil.rmtree(root, ignore_errors=True)
+            try:
+                fs.cleanup()
+            except Exception:
+                pass
         return dict(outputs=[], failures=[l for l, cnd in viol if (cnd is True) or (cnd is not False and bool(cnd))])
 
 
